@@ -102,10 +102,9 @@ func sameList(a, b []string) bool {
 type oracle struct {
 	seen, miss             map[string]int
 	earned, revAcc, revVol set
-	sawUnreadable          bool
-	sawStateCorrupt        bool
-	sawTombCorrupt         bool
-	failClosedSince        bool
+	// the files as they were before this run's read fault was injected
+	statePre stateObs
+	tombPre  tombObs
 }
 
 func newOracle(keys []string) *oracle {
@@ -342,18 +341,16 @@ func (r *runner) replay(b *behaviour, base string) {
 		// ---- time and read faults ------------------------------------
 		e.passDays(st.D)
 		o.age(st.D)
+		o.statePre, o.tombPre = e.observeState(), e.observeTomb()
 		var unr *unreadable
 		switch st.RF {
 		case "tombCorrupt":
 			corruptFile(e.tombPath())
-			o.sawTombCorrupt = true
 		case "stateCorrupt":
 			corruptFile(e.statePath())
-			o.sawStateCorrupt = true
 		case "tombUnreadable":
 			if fi, err := os.Lstat(e.tombPath()); err == nil && fi.Mode().IsRegular() {
 				unr = makeUnreadable(e.tombPath(), keep)
-				o.sawUnreadable = true
 			} else {
 				r.drift("behaviour %s step %d: tombstone file absent, cannot be made unreadable", b.ID, si)
 				drifted = true
@@ -753,9 +750,11 @@ func (o *oracle) cause(sc *script, k string, st *step, revSet set) string {
 		return o.causeIgnored(sc, st, set{base: true})
 	}
 	switch {
-	case o.sawUnreadable:
+	case st.RF == "tombUnreadable" && has(o.tombPre.S, base):
+		// the tombstone was on disk; open() failed and the run went on with none
 		return "tombstones-unreadable"
-	case o.sawStateCorrupt:
+	case st.RF == "stateCorrupt" && o.statePre.M[base].St == "Revoked" && !has(o.tombPre.S, base):
+		// the StateRevoked marker was the only record (the tombstone write had failed) and is gone
 		return "sole-record-corrupted"
 	}
 	return ""
